@@ -675,7 +675,17 @@ class _SetOperation(Selectable, Term):  # type:ignore[misc]
 
         querystring = base_querystring
         for set_operation, set_operation_query in self._set_operation:
-            set_operation_querystring = self._operand_sql(set_operation_query, set_ctx)
+            set_operation_querystring = self._operand_sql(
+                set_operation_query,
+                # a later operand that brings a WITH clause of its own must stay one unit as well: unbracketed, WITH
+                # would stand in the middle of the statement (the first operand's WITH heads the whole statement)
+                set_ctx.copy(subquery=True)
+                if getattr(set_operation_query, "_with", None)
+                and not set_ctx.subquery
+                and set_ctx.dialect != Dialects.SQLITE
+                else set_ctx,
+                unit=bool(getattr(set_operation_query, "_with", None)),
+            )
 
             if self._width(self.base_query) != self._width(set_operation_query):
                 raise SetOperationException(
@@ -723,8 +733,12 @@ class _SetOperation(Selectable, Term):  # type:ignore[misc]
         return len(operand._selects)
 
     @classmethod
-    def _operand_sql(cls, operand: Any, set_ctx: SqlContext) -> str:
-        if cls._is_unit(operand) and not set_ctx.subquery and set_ctx.dialect == Dialects.SQLITE:
+    def _operand_sql(cls, operand: Any, set_ctx: SqlContext, unit: bool = False) -> str:
+        if (
+            (unit or cls._is_unit(operand))
+            and not set_ctx.subquery
+            and set_ctx.dialect == Dialects.SQLITE
+        ):
             # SQLite's grammar has no bracketed operands: the unit is written as a FROM-subquery
             operand_sql = operand.get_sql(set_ctx.copy(subquery=True))
             return "SELECT * FROM {operand}".format(operand=operand_sql) if operand_sql else ""
